@@ -43,7 +43,7 @@ check("C08", "exploration",
 # properties deliberately not claimed (reason); anything else missing from CHECKS is listed as "not built yet"
 NOT_APPLICABLE = {}
 
-HOOK_COMMITS = ["45bc492", "e36cf10", "3319613", "69852e4", "f4a53ae", "ce43167"]
+HOOK_COMMITS = ["45bc492", "e36cf10", "3319613", "69852e4", "f4a53ae", "4b47353", "ce43167"]
 
 check("C14", "model_checking",
       "CircularBuf: BFS to closure over {write,take,close} histories for every capacity<=6 units x write size 1..3 x read size, "
@@ -323,3 +323,24 @@ check("C06", "exploration",
            "index is covered so that any aliasing inside the index space shows as a collision; API misuse that would replay a stream "
            "must be refused; cross-shard values must coincide on all shards.",
       note="47 steps x 6 indices x up to 2049 offsets x 3 seeds.")
+
+check("C07", "exploration",
+      "integer_add (with carry), integer_sat_add, integer_sub, compare_geq, compare_gt for every pair of widths (x,y) in {1..4}^2 "
+      "with y no wider than x, integer_mul for every (x,y) width pair with x+y <= 6 (thorough: widths to 5, 8x8 boundary rows): every "
+      "operand pair of the two widths as the records of one three-helper run, in the semi-honest DZKP context and (all width pairs in "
+      "thorough, half of them in quick) in the proof-carrying malicious context where the proof must also verify; boundary-operand "
+      "pairs for 16- and 64-bit words incl. narrower y; multiply over Fp31 on all 961 pairs. Oracle: consistent three-party sharing "
+      "of the right bit length reconstructing to the plaintext function. distinct_nontrivial = operand pairs executed.",
+      [{"name": "circuits", "config": "A", "test": "verif::c07::run", "workers": {"quick": 4, "thorough": 8},
+        "timeout": {"quick": 1200, "thorough": 7200},
+        "require": {"any": {"circuit_runs": 60, "unequal_width_runs": 20, "distinct:circuits": 12}}}],
+      assumptions=["select / or / bool_and_8_bit, share conversion, eval_dy_prf and aggregate_values are exercised through C01-C05 "
+                   "runs (attribution results) rather than enumerated here",
+                   "operands wider than 4 (5) bits only on the boundary alphabet"],
+      exhaustive=True, engine="E5 domain",
+      technique="exhaustive small-domain enumeration of operand pairs and width pairs executed on the real three-helper circuits, "
+                "plaintext reference",
+      text="For each arithmetic / comparison circuit every operand pair of every small width combination (including unequal widths) is "
+           "evaluated by the three real helpers in both execution modes and compared with the integer function; sharings must be "
+           "consistent and proofs must verify.",
+      note="Widths 1..4 (5) exhaustively; 16/64-bit boundary operands.")
